@@ -502,14 +502,15 @@ func c17Racing(cfg fw.Config, rec *fw.Rec, i int) {
 
 func init() {
 	verifRegistry["C17/mcrew"] = func(cfg fw.Config, rec *fw.Rec) {
-		rec.Rule = "mcrew Timers, in-package, the harness is the emitter: scenarios of 3-12 make / cancel / sleep / quiesce requests over ids {x,y} with delays 2-20 ms and 10 s; a make may carry requests that the handler of its firing issues (on the firing id itself - re-create, cancel+re-create - and on the other id), nested up to 2 deep; an online monitor checks per timer: fired at most once, not before clock-before-request + delay, never after a cancel that had returned, duplicate ids rejected only while pending, a fired id reusable from inside its handler, a re-created timer cancellable; at quiescent points the live pending map and the MarshalJSON report must equal accepted - fired - cancelled; plus racing requester goroutines; under -race; sio part: see the sio batch; non-trivial = scenario in which a timer fired; distinct by scenario"
-		rec.Required = []string{"fired", "cancelled", "accepted", "rejected_duplicate", "recreated_in_handler_of_same_id", "cancelled_from_handler", "quiescent_points_compared", "racing_scenarios", "make_inside_firing_handler_same_id", "cancel_inside_firing_handler_same_id"}
+		rec.Rule = "mcrew Timers, in-package, the harness is the emitter: scenarios of 3-12 make / cancel / sleep / quiesce requests over ids {x,y} with delays 2-20 ms and 10 s; a make may carry requests that the handler of its firing issues (on the firing id itself - re-create, cancel+re-create - and on the other id), nested up to 2 deep; an online monitor checks per timer: fired at most once, not before clock-before-request + delay, never after a cancel that had returned, duplicate ids rejected only while pending, a fired id reusable from inside its handler, a re-created timer cancellable; at quiescent points the live pending map and the MarshalJSON report must equal accepted - fired - cancelled; plus racing requester goroutines; plus timer requests as messages through Service.Process (timers_glue.go) that name their due time as a delay ('in') or an instant ('at': UTC, with a zone offset, in the past, an hour ahead), some deleted before they are due: processed not before the instant asked for, once, not after a deleteTimer was answered, pending exactly while neither fired nor deleted; under -race; sio part: see the sio batch; non-trivial = scenario in which a timer fired; distinct by scenario"
+		rec.Required = []string{"fired", "cancelled", "accepted", "rejected_duplicate", "recreated_in_handler_of_same_id", "cancelled_from_handler", "quiescent_points_compared", "racing_scenarios", "make_inside_firing_handler_same_id", "cancel_inside_firing_handler_same_id", "timer_requests_as_messages_with_in_and_at"}
 		rec.Assume = []string{"'never early' compares the clock read before the request plus the delay with the clock read at handler entry (cannot be late)", "bounded progress: a short timer must have fired within 30 s of its due time"}
 		n := cfg.Pick(250, 8000)
 		fw.Parallel(8, n, func(w, i int) { c17Scenario(cfg, rec, i) })
 		for i := 0; i < cfg.Pick(10, 80); i++ {
 			c17Racing(cfg, rec, i)
 		}
+		fw.Parallel(4, cfg.Pick(4, 24), func(w, i int) { c17Glue(cfg, rec, i) })
 		keys := []string{}
 		_ = sort.Strings
 		_ = keys
